@@ -22,10 +22,13 @@ struct PdoCfgRun : NodeEnv {
               {0x2100, 0x20, 1, true, true, true, false}, /* absent sub-index */ {0x2F00, 1, 1, true, true, true, false} /* absent index */};
         add_u8(specs, 0x2100, 0, CO_OBJ_D___R_, 9);
         for (auto &o : oc) if (o.exists) { uint8_t fl = (uint8_t)((o.rd ? CO_OBJ_____R_ : 0) | (o.wr ? CO_OBJ______W : 0) | (o.map ? CO_OBJ____P__ : 0)); add_typed(specs, o.width == 1 ? T_U8 : o.width == 2 ? T_U16 : T_U32, o.idx, o.sub, fl, 0x11u * o.sub); }
-        for (int n = 0; n < nR; n++) { std::vector<uint32_t> maps; int k = (int)plan.c("rmap" + std::to_string(n), 1); for (int i = 0; i < k && i < 3; i++) maps.push_back(CO_LINK(0x2100, 1 + i, 8 * oc[(size_t)i].width)); add_rpdo(specs, n, (0x200u + 0x100u * (uint32_t)n + nodeId) | (plan.c("rvalid" + std::to_string(n), 1) ? 0 : 0x80000000u), (uint8_t)plan.c("rtype" + std::to_string(n), 254), maps, true); }
+        for (int n = 0; n < nR; n++) { std::vector<uint32_t> maps; int k = (int)plan.c("rmap" + std::to_string(n), 1); for (int i = 0; i < k && i < 3; i++) maps.push_back(CO_LINK(0x2100, 1 + i, 8 * oc[(size_t)i].width));
+            if (k == 4) { maps = {CO_LINK(0x0007, 0, 32), CO_LINK(0x2100, 1, 8), CO_LINK(0x0005, 0, 8)}; cov.hit("rpdo-default-mapping-with-dummies"); } if (k == 5) { maps = {CO_LINK(0x0007, 0, 32), CO_LINK(0x2100, 3, 32), CO_LINK(0x0005, 0, 8)}; cov.hit("rpdo-default-mapping-with-dummies"); }   /* defaults with dummy entries (cannot be created by SDO): 6 and 9 bytes */  add_rpdo(specs, n, (0x200u + 0x100u * (uint32_t)n + nodeId) | (plan.c("rvalid" + std::to_string(n), 1) ? 0 : 0x80000000u), (uint8_t)plan.c("rtype" + std::to_string(n), 254), maps, true); }
         for (int n = 0; n < nT; n++) { std::vector<uint32_t> maps; int k = (int)plan.c("tmap" + std::to_string(n), 1); for (int i = 0; i < k && i < 3; i++) maps.push_back(CO_LINK(0x2100, 1 + i, 8 * oc[(size_t)i].width)); add_tpdo(specs, n, (0x40000180u + 0x100u * (uint32_t)n + nodeId) | (plan.c("tvalid" + std::to_string(n), 1) ? 0 : 0x80000000u), (uint8_t)plan.c("ttype" + std::to_string(n), 254), 0, (uint16_t)plan.c("tev", 0), maps, true); }
         NodeCfg cfg; cfg.nodeId = nodeId; cfg.freq = freq; cfg.tmrNum = 16;
-        w.build(0, cfg, specs); w.init(0); w.start(0);
+        w.build(0, cfg, specs);
+        for (int n = 0; n < nR; n++) if (plan.c("rmap" + std::to_string(n), 1) == 5) w.setraw(0, mapIdx(false, n), 0, 2);   // the 9-byte default: only its first two entries (8 bytes) are counted, the third waits behind the count
+        w.init(0); w.start(0);
         if (CONodeGetErr(N()) != CO_ERR_NONE) fail("setup/node-error", "node reports an error after initialisation");
         // F15: every timer slot taken by the application, TPDOs with an event time: an activation cannot get its timer - whatever the node then answers, a refused write changes nothing
         if (plan.c("poolfull", 0)) { w.cur = 0; while (COTmrCreate(&N()->Tmr, 1000000, 0, [](void *) {}, nullptr) >= 0) {} (void)CONodeGetErr(N()); cov.hit("F15-timer-pool-full"); }
@@ -39,6 +42,7 @@ struct PdoCfgRun : NodeEnv {
         SM r; uint32_t cnt = w.raw(0, mapIdx(tp, n), 0);
         if (cnt > 8) { r.ok = false; r.why = "count " + std::to_string(cnt); return r; }
         for (uint32_t i = 1; i <= cnt; i++) { uint32_t e = w.raw(0, mapIdx(tp, n), (uint8_t)i); uint16_t idx = (uint16_t)(e >> 16); uint8_t sub = (uint8_t)(e >> 8); uint8_t bits = (uint8_t)e; const OClass *o = find(idx, sub);
+            if (!o && !tp && idx >= 2 && idx <= 7 && sub == 0 && bits % 8 == 0 && bits) { r.total += bits / 8; r.ent.push_back({nullptr, (uint8_t)(bits / 8)}); continue; }   // RPDO dummy entry: skips its bytes
             if (!o) { r.ok = false; r.why = "entry " + std::to_string(i) + " names " + hex(e) + " which does not exist"; return r; }
             r.total += bits / 8; uint8_t by = (uint8_t)(bits / 8); if (!(by == o->width || (by == 3 && o->width == 4)) || bits % 8) r.exact = false; r.ent.push_back({o, by}); }
         if (r.total > 8) { r.ok = false; r.why = std::to_string(r.total) + " mapped bytes"; }
@@ -66,7 +70,7 @@ struct PdoCfgRun : NodeEnv {
             if (type < 254 || !sm.exact) continue;
             uint32_t id = w.raw(0, comIdx(false, n), 1) & 0x7FF; bool clash = false; for (int k = 0; k < nR; k++) if (k != n && pdoValid(false, k) && (w.raw(0, comIdx(false, k), 1) & 0x7FF) == id) clash = true; if (clash || id == 0x601 || id == 0x80 || id == 0) continue;
             Frame f(id, 8, {(uint8_t)(0xA0 + opi), 0x5B, 0x6C, 0x7D, 0x8E, 0x9F, 0x10, 0x21}); std::vector<uint8_t> img = w.image(0); std::map<std::pair<uint16_t, uint8_t>, uint32_t> expv; int pos = 0;
-            for (auto &pe : sm.ent) { uint32_t val = 0; for (int b = 0; b < pe.second; b++) val |= (uint32_t)f.d[pos + b] << (8 * b); pos += pe.second; expv[{pe.first->idx, pe.first->sub}] = val; }
+            for (auto &pe : sm.ent) { uint32_t val = 0; for (int b = 0; b < pe.second; b++) val |= (uint32_t)f.d[pos + b] << (8 * b); pos += pe.second; if (pe.first) expv[{pe.first->idx, pe.first->sub}] = val; }
             deliver(f);
             for (auto &o : oc) if (o.exists) { auto it = expv.find({o.idx, o.sub}); uint32_t now2 = w.raw(0, o.idx, o.sub); if (it != expv.end()) { if (now2 != it->second) { fail("cfg/rpdo-behaviour", "RPDO " + std::to_string(n) + " after " + when + ": object " + hex(o.idx) + ":" + std::to_string(o.sub) + " holds " + hex(now2) + ", stored mapping gives " + hex(it->second)); return; } } }
             // nothing but mapped objects changed
@@ -132,7 +136,7 @@ struct PdoCfgRun : NodeEnv {
 
 Plan gen_pdocfg(Rng &r, bool thorough) {
     Plan p; if (r.chance(1, 6)) { p.cfg["poolfull"] = 1; p.cfg["tev"] = r.pick<int64_t>({20, 50}); }
-    for (int n = 0; n < 2; n++) { p.cfg["rvalid" + std::to_string(n)] = r.below(2); p.cfg["tvalid" + std::to_string(n)] = r.below(2); p.cfg["rmap" + std::to_string(n)] = r.below(4); p.cfg["tmap" + std::to_string(n)] = r.below(4); p.cfg["rtype" + std::to_string(n)] = r.pick<int64_t>({254, 255, 1}); p.cfg["ttype" + std::to_string(n)] = r.pick<int64_t>({254, 255, 1}); }
+    for (int n = 0; n < 2; n++) { p.cfg["rvalid" + std::to_string(n)] = r.below(2); p.cfg["tvalid" + std::to_string(n)] = r.below(2); p.cfg["rmap" + std::to_string(n)] = r.chance(1, 5) ? r.range(4, 5) : r.below(4); p.cfg["tmap" + std::to_string(n)] = r.below(4); p.cfg["rtype" + std::to_string(n)] = r.pick<int64_t>({254, 255, 1}); p.cfg["ttype" + std::to_string(n)] = r.pick<int64_t>({254, 255, 1}); }
     auto link = [&]() -> int64_t { static const uint32_t targets[] = {0x210001, 0x210002, 0x210003, 0x210004, 0x210005, 0x210006, 0x210007, 0x210008, 0x210009, 0x210020, 0x2F0001, 0x100000, 0x000500}; static const uint8_t widths[] = {1, 2, 4, 4, 1, 2, 1, 4, 1, 1, 1, 4, 1}; uint32_t i = r.below(13); uint32_t bits = r.chance(3, 4) ? widths[i] * 8u : r.pick<uint32_t>({8, 16, 24, 32, 64, 0, 1, 40}); return (int64_t)(targets[i] << 8 | bits); };
     int n = (int)r.range(4, thorough ? 60 : 30);
     for (int i = 0; i < n; i++) {
